@@ -528,6 +528,13 @@ def specStep (toks : List String) : Option String :=
                   | "trunc", [l] => l.toNat?.map fun l => (ct.take l, id)
                   | "c1", [n] => (bytesOfHex n).map fun n => (n ++ ct.drop 65, id)
                   | "id", _ => some (ct, id ++ [0x21])
+                  | "xor", [a] =>
+                    (match a.splitOn ":" with
+                     | [ps, mk] => do
+                       let mk ← (bytesOfHex mk).bind List.head?
+                       let idx ← (ps.splitOn ",").mapM String.toNat?
+                       if idx.any (· ≥ ct.length) then none else pure (ct.mapIdx fun i x => if idx.contains i then x ^^^ mk else x, id)
+                     | _ => none)
                   | _, _ => none
                 match alt with
                 | none => none
@@ -590,7 +597,7 @@ def specStep (toks : List String) : Option String :=
         else pure (match nextScalar cands with
           | none => "ANY"
           | some (k, rest) =>
-            let pub := if which = "sign" then showPt2 (signMasterPub k) else showPt (encMasterPub k)
+            let pub := if which = "sign" ∨ which = "signfn" then showPt2 (signMasterPub k) else showPt (encMasterPub k)
             "OK " ++ hex32 k ++ " " ++ pub ++ " " ++ showUsed [k] rest.length)
       | ["s9_rngstats", _] => some "OK in-range=1 distinct=1 bits-ok=1"
       | _ => none
